@@ -62,11 +62,11 @@ func TestVF_C09(t *testing.T) {
 	r := vfkit.Start(t, "C09")
 	defer r.Finish()
 	r.Rule("case = one generated fixture (1..3 raw blocks incl. replica/overlapping blocks) served by one BucketStore (index cache none/large, small series-size estimate so that lazy expanded postings trigger) x generated requests. " +
-		"Each request is first answered without limits (true N_series, N_chunks of the merged answer), then re-issued with series and/or chunk limits drawn from {N-1, N, N+1, 1, 2N, N/2} under freshly drawn lazy-postings settings and series batch size (1,2,10000). " +
+		"Each request is first answered without limits (true N_series, N_chunks of the merged answer), then re-issued with series and/or chunk limits drawn from {N-1, N, N+1, 1, 2N, N/2}; lazy-postings settings and series batch size (1,2,10000) are drawn per request. " +
 		"oracle: a successful limited call returns at most limit series/chunks and exactly the unlimited answer; if N exceeds a limit the call must fail and the gRPC code must be ResourceExhausted. Failing although N <= limit is counted, not flagged " +
 		"(limiters reserve per block before merging and, on the eager path, before time filtering). evaluation = one limited call; distinct/non-trivial = limited call on a request with N_series > 0")
-	nFix := r.N(6, 100)
-	nReq := r.N(40, 120)
+	nFix := r.N(6, 40)
+	nReq := r.N(40, 100)
 	r.Require(int64(nFix*nReq*2), nFix*nReq/2)
 	r.Assume("limit 0 means unlimited (documented); the unlimited answer of the same store instance is the true answer (its correctness is C10's subject)")
 	base := t.TempDir()
@@ -112,7 +112,9 @@ func vfc09RunFixture(t *testing.T, r *vfkit.Run, c int, rng *rand.Rand, nReq int
 		skip := rng.Intn(5) == 0
 		req := &storepb.SeriesRequest{MinTime: mint, MaxTime: maxt, Matchers: vfc07Proto(ms), SkipChunks: skip}
 		setLimits(0, 0)
-		vfc09Tune(rng, st)
+		// one draw of the request-time knobs per request: the unlimited answer and the limited calls
+		// run under the same settings, so that a difference can only come from the limits
+		tune := vfc09Tune(rng, st)
 		srv, err, timedOut := vfc07Call(st, req)
 		if timedOut {
 			r.Inconclusive("a Series call exceeded the 3 minute deadline")
@@ -143,7 +145,6 @@ func vfc09RunFixture(t *testing.T, r *vfkit.Run, c int, rng *rand.Rand, nReq int
 		}
 		for _, p := range probes {
 			setLimits(p.s, p.c)
-			tune := vfc09Tune(rng, st)
 			lazyBefore := testutil.ToFloat64(st.metrics.lazyExpandedPostingsCount)
 			srv, err, timedOut := vfc07Call(st, req)
 			if timedOut {
